@@ -25,12 +25,12 @@ func init() {
 }
 
 func runC19(c *fw.Ctx) {
+	c19Names(c)
+	genC19(c)
 	if refcatHook != nil {
 		refcatHook(c, "C19")
 		refcatCross(c, "C19", genC04, genC13)
 	}
-	c19Names(c)
-	genC19(c)
 }
 
 // c19Names: part (a), the automatic tag-name function.
@@ -153,6 +153,9 @@ func genC19(c *fw.Ctx) {
 		for _, paren := range []bool{false, true} {
 			for ui, urlTags := range urlSets {
 				for m1, t1 := range tagSets {
+					if c.Expired() {
+						return
+					}
 					for m2, t2 := range tagSets {
 						for _, hoistKind := range []int{0, 1, 2} { // 0 none, 1 a method with another path, 2 a method with the URL's own path
 							hoist := hoistKind != 0
